@@ -15,7 +15,7 @@ def run(payload):
     grid = UnitGrid([3])
 
     def fail(kind, **kw):
-        if len(fails) < 6:
+        if sum(1 for f_ in fails if f_["id"] == kind) < 3:  # a few witnesses per kind; one kind never crowds out another
             fails.append({"id": kind, **kw})
 
     for rep in range(payload.get("n", 60)):
